@@ -170,6 +170,34 @@ func (s *Sched) hook(id string, v uint64) {
 	<-g.wake
 }
 
+// Point lets harness code (a scripted loader, a clock) park like a library hook does.
+func (s *Sched) Point(id string, v uint64) { s.hook(id, v) }
+
+// Note appends a harness event to the log without parking (same sequence numbers as the arrivals).
+func (s *Sched) Note(at string, v uint64, obs []int64) int {
+	gid := GoID()
+	s.mu.Lock()
+	defer s.mu.Unlock()
+	name := "?"
+	if g := s.gs[gid]; g != nil {
+		name = g.Name
+	}
+	s.seq++
+	s.Log = append(s.Log, Event{Seq: s.seq, G: name, At: at, V: v, Obs: obs})
+	return s.seq
+}
+
+// Name of the calling goroutine ("" if it is not managed).
+func (s *Sched) Name() string {
+	gid := GoID()
+	s.mu.Lock()
+	defer s.mu.Unlock()
+	if g := s.gs[gid]; g != nil {
+		return g.Name
+	}
+	return ""
+}
+
 func (s *Sched) parked() []*G {
 	var out []*G
 	for _, g := range s.all {
